@@ -952,6 +952,12 @@ func (h *RealtimeHandler) Receiver() hwebsocket.Receiver {
 
 func (h *RealtimeHandler) Sender() hwebsocket.Sender {
 	return func(msg hwebsocket.Msg) (int, error) {
+		// A client that does not read what it is sent for as long as the idle
+		// timeout is disconnected like a silent one: the write fails instead
+		// of blocking the connection (and those who broadcast to it) forever.
+		if h.ClientIdleTimeout > 0 {
+			h.conn.SetWriteDeadline(time.Now().Add(h.ClientIdleTimeout))
+		}
 		return hwebsocket.Send(h.conn, msg)
 	}
 }
